@@ -95,7 +95,9 @@ func (c *Ctx) Check(construct string, pos token.Pos, ok bool, detail string) boo
 func (c *Ctx) Good(construct string, pos token.Pos, detail string) {
 	c.add(Finding{Rule: c.curRule, Construct: construct, Pos: c.P.Pos(pos), Status: OK, Detail: detail})
 }
-func (c *Ctx) Bad(construct string, pos token.Pos, detail string)  { c.Check(construct, pos, false, detail) }
+func (c *Ctx) Bad(construct string, pos token.Pos, detail string) {
+	c.Check(construct, pos, false, detail)
+}
 
 // Unsure records an undecidable instance (counts as failure of the checker, not a violation).
 func (c *Ctx) Unsure(construct string, pos token.Pos, detail string) {
